@@ -32,6 +32,7 @@ func init() {
 		spaces[p+".json.triples"] = func(t string) mck.Space { return jsonTripleSpace(v9) }
 		spaces[p+".json.mixed"] = func(t string) mck.Space { return jsonMixedSpace(v9) }
 		spaces[p+".json.counts"] = func(t string) mck.Space { return jsonCountsSpace(v9, t) }
+		spaces[p+".json.allelems"] = func(t string) mck.Space { return jsonAllElemSpace(v9) }
 	}
 }
 
@@ -701,5 +702,58 @@ func jsonCountsSpace(v9 bool, tier string) mck.Space {
 			return
 		}
 		runJSONMsg(c, v9, m, tpls, fmt.Sprintf("%s = %d", mode, n), "counts:"+mode)
+	}}
+}
+
+// jsonAllElemSpace: every element of the information model (IANA ids up to 433, the private ones incl. ids
+// above 30000 and enterprise numbers) as a one-field template through the JSON oracle: the id, the enterprise
+// number and the value published must be the element's own, for every id - not only for the handful of ids the
+// value alphabet happens to use.
+func jsonAllElemSpace(v9 bool) mck.Space {
+	flowh.InstallExtra()
+	type ek struct {
+		pen uint32
+		id  uint16
+	}
+	var keys []ek
+	for _, k := range flowh.ModelKeys() {
+		if v9 && k[0] != 0 {
+			continue
+		}
+		keys = append(keys, ek{uint32(k[0]), uint16(k[1])})
+	}
+	dims := mck.Radix{uint64(len(keys)), 2}
+	return mck.FuncSpace{N: dims.Size(), F: func(idx uint64, c *mck.Ctx) {
+		d := dims.Digits(idx)
+		k := keys[d[0]]
+		at := flowh.TypeOf(k.pen, k.id)
+		kind := flowh.Kind{Name: fmt.Sprintf("%d/%d", k.pen, k.id), F: ref.Field{ID: k.id, PEN: k.pen, Type: at}}
+		if n := at.NaturalLen(); n > 0 {
+			kind.F.Len = uint16(n)
+		} else {
+			kind.F.Len = 6
+		}
+		// a second, ordinary field behind it: whatever is cached or indexed per field must not leak into the next one
+		by := flowh.ElemByType()
+		f2 := ref.Field{ID: by[ref.TU16], Len: 2, Type: ref.TU16}
+		t := ref.Template{ID: 300, Fields: []ref.Field{kind.F, f2}}
+		if d[1] == 1 {
+			t.Fields = []ref.Field{f2, kind.F}
+		}
+		tpls := map[uint16]ref.Template{300: t}
+		mkrec := func(r int) ref.Record {
+			a, b := flowh.FillValue(kind, 0, r, 0), ref.Value{Raw: []byte{byte(r + 1), 0x55}}
+			if at == ref.TString { // keep strings printable: escaping is not this space's subject
+				for i := range a.Raw {
+					a.Raw[i] = byte('a' + (i+r)%26)
+				}
+			}
+			if d[1] == 1 {
+				return ref.Record{b, a}
+			}
+			return ref.Record{a, b}
+		}
+		m := &ref.Msg{V9: v9, Hdr: hdrFor(v9, 3), Sets: []ref.Set{{Kind: ref.SetTemplates, Templates: []ref.Template{t}}, {Kind: ref.SetData, TemplateID: 300, Records: []ref.Record{mkrec(0), mkrec(1)}}}}
+		runJSONMsg(c, v9, m, tpls, fmt.Sprintf("element %d/%d (%s), position %d", k.pen, k.id, ref.ATypeNames[at], d[1]), "allelems")
 	}}
 }
